@@ -988,10 +988,11 @@ class HistogramBase(abc.ABC):
             array = np.asarray(other)
             scalar = cast(float, other)
             factor_dtype = array.dtype
-            if factor_dtype.kind == "i":
+            if factor_dtype.kind in "iu":
                 # Narrow integer scalars (np.int16, np.int32) would make the
                 # products (and the squared factor in errors2) overflow.
                 factor_dtype = np.promote_types(factor_dtype, np.int64)
+                scalar = int(other)
             try:
                 self._coerce_dtype(factor_dtype)
             except ValueError as v:
@@ -1025,6 +1026,8 @@ class HistogramBase(abc.ABC):
         if isinstance(other, HistogramBase):
             raise TypeError("Division of two histograms is not supported.")
         elif np.isscalar(other):
+            if isinstance(other, np.integer):
+                other = int(other)  # other**2 must not wrap around in a narrow type
             inverse = 1 / other  # Fail (e.g. for zero) before anything is changed
             self._coerce_dtype(np.float64)
             self.frequencies = self.frequencies / other
